@@ -491,6 +491,36 @@ var genMalformed = rapid.Custom(func(t *rapid.T) MalformedCase {
 	return MalformedCase{Data: ev.QStr(sb.String()), Chunks: genChunks.Draw(t, "chunks")}
 })
 
+// TestPropShortLastFrame: the stream ends before the last frame's Content-Length bytes have arrived,
+// and what did arrive is a complete JSON value all the same (a length that overstates the body, a
+// cut inside trailing padding): enumerated over bodies, paddings and missing byte counts.
+func TestPropShortLastFrame(t *testing.T) {
+	n := 0
+	for _, body := range goodBodies {
+		for _, pad := range []string{"", " ", "\n", "   \r\n"} {
+			for missing := 1; missing <= 4; missing++ {
+				for _, before := range []string{"", frame(goodBodies[0])} {
+					full := body + pad
+					// declared: the body and its padding plus bytes that never come
+					data := before + fmt.Sprintf("Content-Length: %d\r\n\r\n%s", len(full)+missing, full)
+					if len(pad) >= missing {
+						// or: the padding is cut short
+						data = before + fmt.Sprintf("Content-Length: %d\r\n\r\n%s", len(full), full[:len(full)-missing])
+					}
+					c := MalformedCase{Data: ev.QStr(data), Chunks: []int{7}}
+					n++
+					recMal.Eval(1)
+					if err := decideMalformed(c); err != nil {
+						recMal.Fail(t, c, "%v", err)
+					}
+				}
+			}
+		}
+	}
+	recMal.ClassN("last frame shorter than its Content-Length although the bytes are complete JSON (enumerated)", n)
+	recMal.Enumerated(int64(n))
+}
+
 func TestPropMalformed(t *testing.T) {
 	rapid.Check(t, func(t *rapid.T) {
 		c := genMalformed.Draw(t, "case")
